@@ -84,7 +84,12 @@ class SetEncoder(AbstractItemEncoder):
                 if namedTypes[idx].isOptional:
                     continue
 
-                subValue = value[idx]
+                if namedTypes[idx].isDefaulted:
+                    # the DEFAULT value, straight from the schema
+                    subValue = namedTypes[idx].asn1Object
+
+                else:
+                    subValue = value[idx]
 
             if namedTypes and namedTypes[idx].isOptional and not subValue.isValue:
                 continue
